@@ -14,10 +14,12 @@ cd "$W" || exit 2
 RES="$D/${EVAL_NAME:-eval.txt}"; : > "$RES"
 if ! git apply "$D/patch.diff" 2>>"$RES"; then echo "PATCH-DOES-NOT-APPLY" | tee -a "$RES"; exit 3; fi
 if ! go1.26.8 build ./... >>"$RES" 2>&1; then echo "BUILD-FAILS" | tee -a "$RES"; exit 3; fi
-if go1.26.8 test -vet=off -count=1 ./... >>"$RES" 2>&1; then echo "suite: pass with patch" | tee -a "$RES"; else
-  # one retry for the known timing flake in rafttest
-  if go1.26.8 test -vet=off -count=1 ./... >>"$RES" 2>&1; then echo "suite: pass with patch (2nd try)" | tee -a "$RES"; else echo "SUITE-FAILS-WITH-PATCH" | tee -a "$RES"; exit 3; fi
-fi
+SUITE=fail
+for try in 1 2 3 4; do
+  # the wall-clock tests in rafttest (TestBasicProgress, TestPause, TestRestart) and TestNodeProposeWaitDropped flake on a loaded machine, also on the unchanged tree
+  if go1.26.8 test -vet=off -count=1 ./... >>"$RES" 2>&1; then SUITE=ok; break; fi
+done
+if [ $SUITE = ok ]; then echo "suite: pass with patch (try $try)" | tee -a "$RES"; else echo "SUITE-FAILS-WITH-PATCH" | tee -a "$RES"; exit 3; fi
 cp "$D/demo_test.go" ./zz_seeded_demo_test.go
 if go1.26.8 test -vet=off -count=1 -run TestSeeded_ . >>"$RES" 2>&1; then echo "DEMO-PASSES-WITH-PATCH (not a valid demonstration)" | tee -a "$RES"; DEMO=bad; else echo "demo: fails with patch" | tee -a "$RES"; DEMO=ok; fi
 git apply -R "$D/patch.diff"
